@@ -92,6 +92,10 @@ pub struct Oracle {
     c20_ticks_seen: usize,
     c16_deliveries_seen: usize,
     registrations_seen: usize,
+    /// honest signatures delivered before their round opened (buffered), waiting for it:
+    /// (message id, producer, entity, signed message, signature, delivery step, junk / copies around)
+    c16_early: Vec<(u32, usize, Entity, String, String, usize, bool)>,
+    c16_open_seen: BTreeSet<String>,
     c06_epochs_done: BTreeSet<u64>,
     c06_artifacts_done: BTreeSet<String>,
     pub avk_by_epoch: BTreeMap<u64, String>,
@@ -123,6 +127,8 @@ impl Oracle {
             c20_ticks_seen: 0,
             c16_deliveries_seen: 0,
             registrations_seen: 0,
+            c16_early: vec![],
+            c16_open_seen: BTreeSet::new(),
             c06_epochs_done: BTreeSet::new(),
             c06_artifacts_done: BTreeSet::new(),
             avk_by_epoch: BTreeMap::new(),
@@ -1210,12 +1216,70 @@ impl Oracle {
     /// open at an aggregator working in that epoch, is recorded under that party — whatever
     /// other parties submitted before.
     fn check_suppression_c16(&mut self, w: &World, oms: &[crate::db::OpenMessageRow], sigs: &[crate::db::SingleSignatureRow], step: usize) {
+        // (v) a buffered honest signature is recorded when its round opens
+        let new_oms: Vec<&crate::db::OpenMessageRow> = oms.iter().filter(|o| !self.c16_open_seen.contains(&o.id)).collect();
+        for om in &new_oms {
+            let pending = std::mem::take(&mut self.c16_early);
+            for (msg_id, producer, entity, signed_message, signature_hex, delivery_step, foreign_around) in pending {
+                if entity.kind() != om.entity.kind() {
+                    self.c16_early.push((msg_id, producer, entity, signed_message, signature_hex, delivery_step, foreign_around));
+                    continue;
+                }
+                let message = serde_json::from_str::<ProtocolMessage>(&om.protocol_message_json).map(|p| p.to_message()).unwrap_or_default();
+                let party_id = w.parties[producer].party_id.clone();
+                let signers = Self::model_signers(w, entity.signing_epoch(), step);
+                let pp = self.params(w, entity.signing_epoch());
+                // another round of that type opened first, another message, a restart in between
+                // (a freshly restarted aggregator has no signer set when it hands the buffer over),
+                // or not an honest signer of this round: not judged
+                let restarted_since = w.restarts_at.iter().any(|r| *r >= delivery_step);
+                if om.entity != entity
+                    || message != signed_message
+                    || restarted_since
+                    || !signers.iter().any(|s| s.party_id == party_id)
+                    || Self::verify_under_key(&pp, &signers, &party_id, &signature_hex, &[], &message).is_err()
+                {
+                    self.probe("c16_buffered_delivery_not_judged");
+                    continue;
+                }
+                self.probe("c16_buffered_deliveries_judged");
+                if sigs.iter().any(|s| s.open_message_id == om.id && s.signer_id == party_id) {
+                    continue;
+                }
+                self.known_hits.push(KnownHit {
+                    finding: "-".into(),
+                    clause: "buffered-contribution-lost".into(),
+                    detail: format!(
+                        "the valid signature of registered party {} for {} was delivered at step {delivery_step} before the round opened (buffered); the round is open now and the signature is not recorded",
+                        short(&party_id), entity.label()),
+                    step,
+                    msg_id,
+                    dedup_trigger: false,
+                    foreign_copy_before: foreign_around,
+                });
+            }
+        }
+        for om in oms {
+            self.c16_open_seen.insert(om.id.clone());
+        }
         let from = self.c16_deliveries_seen;
         self.c16_deliveries_seen = w.deliveries.len();
-        for d in w.deliveries.iter().skip(from) {
+        for (di, d) in w.deliveries.iter().enumerate().skip(from) {
             let MsgKind::Signature { entity, producer, producer_recording_epoch, claimed, forged: None, signed_message, signature_hex, .. } = &d.msg.kind else { continue };
             let party_id = w.parties[*producer].party_id.clone();
             if d.damaged || *claimed != party_id || *producer_recording_epoch + 1 != entity.signing_epoch() || d.agg_epoch_view != entity.signing_epoch() {
+                continue;
+            }
+            // delivered before its round opened: the aggregator buffers it (HTTP 202, or silently on
+            // the message queue); remembered until the next round of that entity type opens
+            if !oms.iter().any(|o| o.entity.kind() == entity.kind() && !o.is_certified && !o.is_expired)
+                && !oms.iter().any(|o| o.entity == *entity)
+                && matches!(d.status, 0 | 202)
+            {
+                let foreign_around = d.batch_junk
+                    || w.deliveries.iter().any(|x| matches!(&x.msg.kind, MsgKind::Signature { signature_hex: h, claimed: c, .. } if h == signature_hex && *c != party_id));
+                self.c16_early.push((d.msg.id, *producer, entity.clone(), signed_message.clone(), signature_hex.clone(), d.step, foreign_around));
+                self.probe("c16_honest_deliveries_before_round_opened");
                 continue;
             }
             // the round was open before the delivery and still is
@@ -1243,10 +1307,9 @@ impl Oracle {
                 self.probe("c16_refused_by_freshly_restarted_aggregator");
                 continue;
             }
-            let same_payload_before: Vec<String> = w
-                .deliveries
+            // (earlier in the log: an earlier event, or an earlier position in the same batch)
+            let same_payload_before: Vec<String> = w.deliveries[..di]
                 .iter()
-                .filter(|x| x.step < d.step)
                 .filter_map(|x| match &x.msg.kind {
                     MsgKind::Signature { signature_hex: h, claimed: c, .. } if h == signature_hex && *c != party_id => Some(format!("{} at step {} ({})", short(c), x.step, if x.status == 0 { "message queue".into() } else { format!("HTTP {}", x.status) })),
                     _ => None,
@@ -1258,9 +1321,8 @@ impl Oracle {
             // memory) makes it drop this one
             let last_start = w.restarts_at.iter().rev().find(|s| **s <= d.step).copied().unwrap_or(0);
             let dedup_trigger = d.status == 0
-                && w.deliveries.iter().any(|x| {
-                    x.step < d.step
-                        && x.step > last_start
+                && w.deliveries[..di].iter().any(|x| {
+                    x.step > last_start
                         && x.status == 0
                         && matches!(&x.msg.kind, MsgKind::Signature { signature_hex: h, entity: e, claimed: c, .. } if h == signature_hex && e == entity && *c != party_id)
                 });
@@ -1281,7 +1343,7 @@ impl Oracle {
                 step,
                 msg_id: d.msg.id,
                 dedup_trigger,
-                foreign_copy_before: !same_payload_before.is_empty(),
+                foreign_copy_before: !same_payload_before.is_empty() || d.batch_junk,
             });
         }
     }
